@@ -192,3 +192,9 @@ PROP["manifest"]["level_text"] += (
     "held across Subscribe #2 / Close; verdict and the counts after=<n> total=<m> compared with the model's "
     "schedule (pxrFinal_reach)."
 )
+
+PROP["assumptions"] += [
+    "`rc new rs2` (a second Subscribe on one ReconnectClient after a first one ended by its caller's context, then Close) "
+    "is outside Model/ClientLTS.lean (one Subscribe and one Close per client): judged by the harness monitor on the real "
+    "ReconnectClient over BaseClient only, not proved",
+]
